@@ -18,7 +18,7 @@ PROP = dict(
     assumptions=["payload limit greater than the FU header size (2 for H.264, 3 for H.265) whenever a unit has to be fragmented: with limit = header size PackNal's loop makes no progress (never run by the harness), below it an item index panics",
                  "H.264 NAL header with F = 0 (forbidden_zero_bit; PackNal does not copy F into the FU indicator); a NAL sent unfragmented has a single-NAL type (1..23, resp. 0..47), otherwise no RFC 6184/7798 receiver can tell it from a payload structure",
                  "payload type < 128 (7-bit field; the code ORs the marker into the same byte); AAC frame shorter than 8192 bytes (13-bit AU-size)",
-                 "receiving side: 1000 <= clock rate < 1000*2^32 (S11: below 1000 Timestamp / uint32(clockRate/1000) divided by zero on the pinned tree; fixed through C13 - a zero divisor is replaced by 1, rtpTimestamp2Ms - and proved total there; the millisecond value drifts 0.23 % at 44.1 kHz, belongs to C07)",
+                 "receiving side: 1000 <= clock rate < 1000*2^32 in the theorems (the millisecond value is rtpTimestamp2Ms = ts*1000/clockRate since the S11 fix of C07 - lal commit cf76295; clock rate <= 0 yields the timestamp itself)",
                  "reorder_invariant: first packet to arrive is the first packet sent (S23, open finding), every packet arrives at least once, fewer than listMax packets waiting after every arrival (RtpSpec.inWindow), at most 32768 packets in the stream considered (half the sequence space)",
                  "ms*rate < 2^53 for the float64 timestamp computation; float64 -> uint32 conversion of values >= 2^32 wraps as on amd64 (Go leaves it implementation-defined; arm64 saturates)"],
 )
